@@ -315,7 +315,7 @@ def reference_times(timeline, drop, offset_s, band=0):
     def us(ev):
         # the kind of timecode is a matter of the LINE the word is on (a spliced file has both kinds)
         rho = 1 if ev[1] else Fraction(1001, 1000)
-        return max(Fraction(0), Fraction(ev[0], 30) * rho * 10 ** 6 - offset_s * 10 ** 6)
+        return max(Fraction(0), Fraction(ev[0], 30) * rho * 10 ** 6 - Fraction(offset_s) * 10 ** 6)
     caps = []
     for kind, *fr in timeline:
         if kind == "EOC":
@@ -339,7 +339,7 @@ def bounded(ctx, b):
     nopt = 0
     for drop, dbl, sep_edm in itertools.product([True, False], repeat=3):
         for gaps in itertools.product(gaps_alpha, repeat=2):
-            for offset in (0, 1, 3, -2) + ((45,) if (drop, dbl, sep_edm, gaps) == (True, False, False, (30, 30)) else ()):
+            for offset in (0, 1, 3, -2, 0.5, -1.25) + ((45,) if (drop, dbl, sep_edm, gaps) == (True, False, False, (30, 30)) else ()):
                 lines = program(rng, drop, dbl, sep_edm, list(gaps) + [30])
                 # reader options that do not concern pop-on timing leave it alone: the language label, roll-up simulation
                 nopt += 1
